@@ -260,11 +260,23 @@ func c12(c *h.Ctx) {
 				bs[r.Intn(len(bs))] = byte(r.U64())
 			}
 		}
+		if r.Chance(25) && len(bs) > 5 {
+			// the reserved bits of bytes 4 and 5 as some other writer left them (the reader does not insist on 1s)
+			bs[4] = bs[4]&0x03 | byte(r.Intn(64))<<2
+			bs[5] = bs[5]&0x1f | byte(r.Intn(8))<<5
+		}
 		hx := h.Hex(bs)
-		dec, _ := avcRecDec(bs)
+		dec, drec := avcRecDec(bs)
 		m := c.O.Call("avc.rec.dec", hx)
 		c.Eq("rec.dec", "avc.rec.dec "+hx, dec, m)
 		c.Hold(dec != "panic", "no_panic", "avc.rec.dec "+hx, dec, "ok|err")
+		if drec != nil && strings.HasPrefix(dec, "ok ") {
+			// whatever bytes a record was read from, what it marshals to is the layout of ITS VALUES (reserved bits
+			// all ones): nothing of the input's spelling survives in the record
+			out, err := drec.MarshalBinary()
+			want := c.O.Call(append([]string{"avc.rec.enc"}, strings.Fields(dec[3:])...)...)
+			c.Hold(err == nil && h.Hex(out) == want, "rec.marshal_after_decode_is_layout_of_values", "avc.rec.dec "+hx+" then MarshalBinary", h.Trunc(h.Hex(out), 300), h.Trunc(want, 300))
+		}
 		size := 1 + r.Intn(4)
 		sd := avcSampleDec(size, bs)
 		c.Eq("sample.dec", fmt.Sprintf("avc.sample.dec %d %s", size, hx), sd, c.O.Call("avc.sample.dec", fmt.Sprint(size), hx))
